@@ -76,6 +76,19 @@ def universe(key, tier):
         slots3 = ("a1.eff1", "a1.eff2", "a1.eff3")
         for combo in _prod(cond_raw, repeat=3):
             out.append((3, tuple((sl, uprob.raw_eff_choice(sl, r)) for sl, r in zip(slots3, combo))))
+    if key == "dcrm":
+        # a disjunctive goal is witnessed by an auxiliary action; a LATER step may undo the witnessed
+        # disjunct: every disjunctive goal x every effect alternative of every effect slot
+        have = set(c for _l, c in out)
+        order = list(uprob.BASE_SLOTS)
+        gi = [i for i, (g, _c) in enumerate(uprob.pool("goal")) if any(isinstance(x, tuple) and x[0] in ("or", "implies", "iff") for x in g)]
+        for es in [x for v in EFFS.values() for x in v]:
+            for j in range(len(uprob.pool(es))):
+                for g in gi:
+                    cid = tuple(sorted([(es, j), ("goal", g)], key=lambda t: order.index(t[0])))
+                    if cid not in have and uprob.make(dict(cid), variant) is not None:
+                        have.add(cid)
+                        out.append((2, cid))
     if key == "tcrm":
         # monitors are reset/advanced by the interplay of an initial value, one effect and the
         # constraint: all core triples (effect slot, init, traj)
